@@ -22,3 +22,5 @@ rm -f *.srl other.key
 # decoy = a third CA that issued nothing here; bundle.crt = decoy.crt + ca.crt (in that order) is the trust file the checks
 # inject with SSL_CERT_FILE: a trust store usually holds many CAs and the one that matters is rarely the first.
 # (generated afterwards: mk_ca decoy "dverif decoy CA"; rm decoy.key; cat decoy.crt ca.crt > bundle.crt)
+# dnsonly = a server identity issued by ca whose only name is DNS:localhost (no IP entry): a client that was told "localhost"
+# must keep verifying against that name on every connect().  (generated afterwards: mk_srv dnsonly ca "DNS:localhost")
